@@ -90,6 +90,79 @@ func (t *Trace) funcGuard(req []string, closure int, terms ...string) int {
 	return -1
 }
 
+// gate: the position of the first exit (one of the given statements) of the function itself that is taken when cond
+// does NOT hold - its path condition contains the negation of cond; -1 if there is none.  Whatever the control
+// structure (if, nested ifs, guard clause, switch with or without tag), `holds` then says whether a later event is
+// reached only if cond holds.
+func (t *Trace) gate(closure int, cond string, exits ...string) int {
+	neg := negAll(cond)
+	for i, e := range t.Events {
+		if e.Closure != closure || e.Helper != "" || (e.Kind != "return" && e.Kind != "continue" && e.Kind != "break") {
+			continue
+		}
+		if !termsWithin([]string{e.Text}, exits...) {
+			continue
+		}
+		var have []string
+		for _, c := range e.Path {
+			have = append(have, c.Text)
+		}
+		if subset(neg, saturate(have)) {
+			return i
+		}
+	}
+	return -1
+}
+
+// saturate: unit resolution on a path condition - from !(a && b) and a follows !b
+func saturate(have []string) []string {
+	set := map[string]bool{}
+	for _, h := range have {
+		set[h] = true
+	}
+	for changed := true; changed; {
+		changed = false
+		for h := range set {
+			if !strings.HasPrefix(h, "!(") || !strings.HasSuffix(h, ")") || !balanced(h[2:len(h)-1]) {
+				continue
+			}
+			parts := conjuncts(h[2 : len(h)-1])
+			if len(parts) < 2 {
+				continue
+			}
+			var open []string
+			for _, p := range parts {
+				if !set[p] {
+					open = append(open, p)
+				}
+			}
+			if len(open) == 1 {
+				if n := negate(open[0]); !set[n] {
+					set[n] = true
+					changed = true
+				}
+			}
+		}
+	}
+	var out []string
+	for h := range set {
+		out = append(out, h)
+	}
+	return out
+}
+
+// holds: event i is reached only if every conjunct of cond holds
+func (t *Trace) holds(i int, cond string) bool {
+	if i < 0 || i >= len(t.Events) {
+		return false
+	}
+	var have []string
+	for _, c := range t.Events[i].Path {
+		have = append(have, c.Text)
+	}
+	return subset(conjuncts(cond), saturate(have))
+}
+
 // first event of the given kinds inside the closure (0 = the function itself) whose text satisfies pred
 func (t *Trace) first(closure int, kinds string, pred func(string) bool) int {
 	for i, e := range t.Events {
@@ -174,12 +247,25 @@ func releaseRechecks(t *Trace) (ok bool, refuse, mut int) {
 	env := map[string]string{"fip": "R.ipam.ByIP(P0.IP)#1", "k": "P0.KeyObj"}
 	lk := t.first(0, "defer", has("R.lockPod("))
 	rd := t.first(0, "call", is("R.ipam.ByIP(P0.IP)"))
-	cmp := t.funcGuard(tmpls(env, `fip.Key != k.KeyInDB`), 0, "return nil", "return ERR")
+	// a changed key ends the request (already released: nil; another owner: an error) ...
+	sameKey := tmpl(`fip.Key == k.KeyInDB`, env)
+	cmp := t.gate(0, sameKey, "return nil", "return ERR")
+	released := t.first(0, "return", is("return nil"))
+	other := -1
+	for i, e := range t.Events {
+		if e.Kind == "return" && e.Text == "return ERR" && e.Helper == "" && t.holds(i, tmpl(`fip.Key != k.KeyInDB && fip.Key != ""`, env)) {
+			other = i
+			break
+		}
+	}
+	keyOK := cmp >= 0 && released >= 0 && t.holds(released, tmpl(`fip.Key != k.KeyInDB && fip.Key == ""`, env)) && other >= 0
+	// ... and so does a running pod
 	runText := tmpl(`R.podRunning(k.PodName, k.Namespace, fip.PodUid)`, env)
 	run := t.first(0, "call", is(runText))
-	refuse = t.funcGuard([]string{runText + "#1"}, 0, "return ERR")
+	refuse = t.gate(0, "!"+runText+"#1", "return ERR")
 	mut = t.first(0, "call", has("cloudProviderUnAssignIP(", ".reserveIP(", ".ipam.Release(", ".releaseIP(", ".ipam.ReserveIP("))
-	ok = lk >= 0 && before(lk, rd) && before(rd, cmp) && before(cmp, run) && before(run, refuse) && before(refuse, mut) && mut >= 0
+	ok = lk >= 0 && before(lk, rd) && before(rd, cmp) && keyOK && before(cmp, run) && t.holds(run, sameKey) && before(run, refuse) &&
+		before(refuse, mut) && mut >= 0 && t.holds(mut, "!"+runText+"#1")
 	return
 }
 
@@ -204,13 +290,15 @@ func resyncRechecks(t *Trace) (ok, lockFirst bool, skip, mut, c int) {
 	lk := t.first(c, "defer", is("defer "+lockText+"()"))
 	lockFirst = lk >= 0 && firstEv >= 0 && t.Events[firstEv].Text == lockText && lk == firstEv+1
 	rd := t.first(c, "call", is(tmpl(`R.ipam.ByIP(obj.fip.IP)`, env)))
-	cmp := t.funcGuard(tmpls(env, `fip.Key != obj.fip.Key`), c, "return")
+	sameKey := tmpl(`fip.Key == obj.fip.Key`, env)
+	cmp := t.gate(c, sameKey, "return")
 	asg := t.first(c, "assign", is(tmpl(`obj.fip`, env)+"="+env["fip"]))
 	runText := tmpl(`R.podRunning(obj.keyObj.PodName, obj.keyObj.Namespace, obj.fip.PodUid)`, env)
 	run := t.first(c, "call", is(runText))
-	skip = t.funcGuard([]string{runText + "#1"}, c, "return")
+	skip = t.gate(c, "!"+runText+"#1", "return")
 	mut = t.first(c, "call", has("cloudProviderUnAssignIP(", ".reserveIP(", ".unbindNoneDpPod(", ".unbindDpPod(", ".releaseIP(", ".ipam.Release("))
-	ok = lk >= 0 && before(lk, rd) && before(rd, cmp) && before(cmp, asg) && before(asg, run) && before(run, skip) && before(skip, mut) && mut >= 0
+	ok = lk >= 0 && before(lk, rd) && before(rd, cmp) && before(cmp, asg) && t.holds(asg, sameKey) && before(asg, run) && before(run, skip) &&
+		before(skip, mut) && mut >= 0 && t.holds(mut, "!"+runText+"#1")
 	return
 }
 
@@ -475,9 +563,12 @@ func facts(trace tracer, bd, rs, fl, fp, pf, ic, ev *fg.Parsed) (string, error) 
 
 	wkOK := false
 	if tKo, err := trace(rs, "FloatingIPPlugin", "keyOwnedByRunningPod"); err == nil && cl >= 0 {
-		cKey := tRes.funcGuard([]string{"R.keyOwnedByRunningPod(el(P0.allocatedIPs).keyObj,el(P0.allocatedIPs).fip.PodUid)"}, cl, "return")
-		rKey := tRel.funcGuard([]string{"R.keyOwnedByRunningPod(P0.KeyObj,R.ipam.ByIP(P0.IP)#1.PodUid)"}, 0, "return ERR")
-		wkOK = keyOwnedHelper(tKo) && before(cSkip, cKey) && before(cKey, cMut) && cMut >= 0 && before(rRefuse, rKey) && before(rKey, rMut) && rMut >= 0
+		cOwned := "R.keyOwnedByRunningPod(el(P0.allocatedIPs).keyObj,el(P0.allocatedIPs).fip.PodUid)"
+		rOwned := "R.keyOwnedByRunningPod(P0.KeyObj,R.ipam.ByIP(P0.IP)#1.PodUid)"
+		cKey := tRes.gate(cl, "!"+cOwned, "return")
+		rKey := tRel.gate(0, "!"+rOwned, "return ERR")
+		wkOK = keyOwnedHelper(tKo) && before(cSkip, cKey) && before(cKey, cMut) && cMut >= 0 && tRes.holds(cMut, "!"+cOwned) &&
+			before(rRefuse, rKey) && before(rKey, rMut) && rMut >= 0 && tRel.holds(rMut, "!"+rOwned)
 	}
 	fmt.Fprintf(&b, "/-- resync closure and Release: after \"not running\" and before any mutation they leave the key alone while another record of it (other stored uid) belongs to a running pod -/\ndef resyncAndReleaseCheckWholeKey : Bool := %s\n", fg.LeanBool(wkOK))
 
